@@ -72,7 +72,12 @@ func (this *C40Encoder) backtrackOneCharacter(context *EncoderContext,
 	buffer = buffer[:count-lastCharSize]
 	context.pos--
 	c := context.GetCurrentChar()
-	lastCharSize, removed = this.encodeChar(c, removed)
+	_, removed = this.encodeChar(c, removed)
+	// the next backtracking step removes the character that is now last in the buffer
+	lastCharSize = 0
+	if len(buffer) > 0 {
+		lastCharSize, _ = this.encodeChar(context.GetMessage()[context.pos-1], nil)
+	}
 	context.ResetSymbolInfo() //Deal with possible reduction in symbol size
 	return lastCharSize, buffer, removed
 }
